@@ -207,9 +207,18 @@ func (h *fasthttpHandler) readReqMsg(ctx *fasthttp.RequestCtx) *dnsmsg.Msg {
 			return nil
 		}
 
+		// The body stream is nil if the request has no body.
+		bodyStream := ctx.Request.BodyStream()
+		if bodyStream == nil {
+			h.logger.Warn().
+				Object("request", (*fasthttpReqLoggerObj)(ctx)).
+				Msg("empty request body")
+			ctx.SetStatusCode(fasthttp.StatusBadRequest)
+			return nil
+		}
 		buf := bufPool.Get()
 		defer bufPool.Release(buf)
-		_, err := buf.ReadFrom(io.LimitReader(ctx.Request.BodyStream(), 65535))
+		_, err := buf.ReadFrom(io.LimitReader(bodyStream, 65535))
 		if err != nil {
 			h.logger.Warn().
 				Object("request", (*fasthttpReqLoggerObj)(ctx)).
